@@ -15,7 +15,7 @@ XS == {<<>>, <<3>>, <<3, 4>>, <<4, 3, 4>>, <<11>>, <<3, 99>>, <<12, 4>>, <<3, 4,
 XSsmall == {<<>>, <<3>>, <<3, 4>>, <<12, 4>>, <<3, 99>>, <<4, 3, 4>>}
 
 Init == /\ s \in UNION {[1..n -> InitItems] : n \in 0..MaxLen}
-        /\ vm \in {"id", "coerce"}
+        /\ vm \in {"id", "coerce", "once"}
         /\ last = [op |-> "init"]
 
 Do(op, a, xs) ==
